@@ -27,13 +27,13 @@ Matrix(R, m) == [i \in 1..m |-> [j \in 1..m |-> IF <<i, j>> \in R THEN 1 ELSE 0]
 PartRel == UNION {LET ps == SetToSeq(P)  m == Len(ps) IN
                   {[part |-> [i \in 1..m |-> SetToSeq(ps[i])], rel |-> Matrix(R, m)] : R \in Preorders(m)} : P \in Partitions}
 
-Cases ==
+Cases(dummy) ==
   LET es == SetToSeq(EdgeSets)
       prs == SetToSeq(PartRel)
       mine == {i \in 1..Len(es) : i % NShards = Shard}
   IN UNION {{[id |-> <<i, j>>, n |-> NQ, edges |-> es[i], part |-> prs[j].part, rel |-> prs[j].rel] : j \in 1..Len(prs)} : i \in mine}
 
-ASSUME LET cs == SetToSeq(Cases) IN
+ASSUME LET cs == SetToSeq(Cases(0)) IN
        /\ ndJsonSerialize(OutFile, cs)
        /\ PrintT(<<"generated", Len(cs)>>)
 =============================================================================
